@@ -45,7 +45,7 @@ def run(pid, tier, k3_programs=None):
     res.cov.update({
         "evaluations": out["fault_positions"] + out["requests"],
         "distinct_nontrivial": out["sweeps"],
-        "rule": "K5: scenarios build table states (fill levels, erasures, pending deferred migration, locked sections) over S x stripe limit x "
+        "rule": "K5: scenarios build table states (fill levels, erasures, pending deferred migration, locked sections, 0-3 helper threads) over S x stripe limit x "
                 "nothrow/throwing move x 5 hash families; `sweep <op>` re-runs <op> once per reachable allocation index k (k-th allocation "
                 "through the table's allocator throws; forked child, copy of the table) and checks: bad_alloc reaches the caller, same "
                 "contents, same hashpower for rehash/reserve, structural scan, size(), lock probe on every array, 12 fresh inserts + lookups, "
@@ -74,7 +74,8 @@ def run(pid, tier, k3_programs=None):
     res.assumptions += [
         "theorems cover the model's fault points only (bucket-array allocation beyond hpLimit, policy exceptions, functor throw); all other "
         "fault positions are enumerated on the implementation, not proved",
-        "helper threads (max_num_worker_threads > 0) are not exercised: an allocation failure inside noexcept parallel_exec_noexcept terminates (F10)",
+        "with helper threads (1-3 workers in part of the scenarios) fault positions also lie inside worker threads; their order is timing dependent, "
+        "so a sweep enumerates every ordinal but not every (thread, ordinal) assignment; a call that absorbs a failure must equal a fault-free run",
     ]
     return C.finish(res, "proof", "cd lean && lake build Cuckoo.Props.%s && #print axioms audit; K5 fault enumeration (check/k5check.py)" % pid)
 
